@@ -257,6 +257,42 @@ impl Prop for C18 {
     fn check(&self, c: &Case, st: &mut Stats) -> Result<(), Failure> {
         check_case(c, st)
     }
+    fn post(&self, tier: Tier, seed: u64) -> (serde_json::Value, Option<(Case, Failure)>) {
+        if tier != Tier::Thorough {
+            return (json!({"fuzz": "not part of the quick tier"}), None);
+        }
+        // hand-made seeds: every (type, route) with a few number spellings
+        let mut seeds = Vec::new();
+        for b0 in 0u8..36 {
+            for t in ["90", "-90.0", "1e2", "NaN", "8848", "-420.5", "1050", "57", "1e999", "\"12\"", " 12 ", "null"] {
+                let mut v = vec![b0];
+                v.extend_from_slice(t.as_bytes());
+                seeds.push(v);
+            }
+        }
+        let dict = crate::engine::verif_dir().join("harness").join("fuzz").join("c18.dict");
+        let runs: u64 = std::env::var("VERIF_FUZZ_RUNS").ok().and_then(|s| s.parse().ok()).unwrap_or(3_000_000);
+        let out = crate::fuzzrun::run("c18_routes", seed, runs, 64, &seeds, dict.to_str());
+        let mut ev = out.evidence;
+        let mut confirmed = None;
+        let mut unconfirmed = 0;
+        for a in &out.artifacts {
+            let Ok(bytes) = std::fs::read(a) else { continue };
+            let case = crate::decode::c18_case(&bytes);
+            let mut st = Stats::new(0);
+            match check_case(&case, &mut st) {
+                Ok(()) => unconfirmed += 1,
+                Err(f) => {
+                    confirmed = Some((case, f));
+                    break;
+                }
+            }
+        }
+        if let Some(o) = ev.get_mut("fuzz").and_then(|f| f.as_object_mut()) {
+            o.insert("artifacts_not_confirmed_by_release_harness".into(), json!(unconfirmed));
+        }
+        (ev, confirmed)
+    }
     fn rule(&self) -> String {
         "generated per type (6): f64 from {both bounds, +-1 ulp and +-0.1 around each, +-0, subnormals, several NaN payloads, +-inf, +-1e308, f64::MAX, uniform inside, uniform in 3x the range, within 2 % of a bound, random bit patterns, integers}; text from formatted values ({}, {:e}, {:.3}, sign, whitespace, suffix, decimal comma), a number grammar, a list of special spellings and arbitrary printable strings; JSON documents likewise (numbers as floats/ints/exponent forms, strings, null, arrays, special tokens); composite documents (Coordinates, Weather, Location, ExtremeLatitudeMethod::NearestLatitude*, Params) with one embedded field. Non-trivial = value within 1 % of a bound, non-finite, or an input the generic f64 parser rejects; distinct by hash of the case".into()
     }
